@@ -25,7 +25,7 @@ def _frames_equal(a, b):
         return False
 
 
-def _check_api(cs, prop, want_clause=None):
+def _check_api(cs, prop, want_clause=None, check=None):
     """Run cs through the public API; evaluate the oracle of `prop` on the concrete result."""
     repo.load()
     L, R = scenario.real_frames(cs)
@@ -57,7 +57,10 @@ def _check_api(cs, prop, want_clause=None):
                       % (tok.get_return_set(), mode0)))
     if not _frames_equal(L, L0) or not _frames_equal(R, R0):
         viols.append(('C12', 'inputs-untouched', 'an input table was modified by the call'))
-    mine = [v for v in viols if v[0] == prop or prop == 'ANY']
+    match = {prop}
+    if prop == 'CRASH' and check:
+        match = {check}          # a crash seen in the model: does the real outcome break the property?
+    mine = [v for v in viols if v[0] in match or prop == 'ANY']
     for v in viols:
         lines.append('oracle: %s/%s: %s' % v)
     return bool(mine), '\n'.join(lines)
@@ -65,7 +68,7 @@ def _check_api(cs, prop, want_clause=None):
 
 def replay_h_join(detail):
     cs = detail['scenario']
-    return _check_api(cs, detail['prop'])
+    return _check_api(cs, detail['prop'], check=detail.get('check'))
 
 
 def replay_h_core(detail):
@@ -84,7 +87,7 @@ def replay_h_core(detail):
         tries = [add_order_fillers(cs), cs]
     text = ''
     for c in tries:
-        ok, text = _check_api(c, detail['prop'])
+        ok, text = _check_api(c, detail['prop'], check=detail.get('check'))
         if ok:
             return True, text
     return False, text
